@@ -38,3 +38,15 @@ Definition grow_floordiv (fx fy : fmt) : fmt :=
 Definition grow_mod (fx fy : fmt) : fmt :=
   let s := sg fx || sg fy in
   mkfmt s (if s then Z.max (n_int fx) (n_int fy) else Z.min (n_int fx) (n_int fy)) (Z.max (nf fx) (nf fy)).
+
+(* C09 reference results as integer codes of the optimal formats.
+   truediv: x/y = (a/b) * 2^(nfy - nfx); in units of 2^-nfr (nfr = nf (grow_truediv)) the
+   exact quotient is a * 2^k / b with k = nfr - nfx + nfy; the two representable neighbours
+   are floor and floor + 1 (equal when the division is exact). *)
+Definition truediv_k (fx fy : fmt) : Z := nf (grow_truediv fx fy) - nf fx + nf fy.
+Definition truediv_floor (fx : fmt) (a : Z) (fy : fmt) (b : Z) : Z := (a * 2^(truediv_k fx fy)) / b.
+Definition truediv_exactb (fx : fmt) (a : Z) (fy : fmt) (b : Z) : bool := (a * 2^(truediv_k fx fy)) mod b =? 0.
+Definition floordiv_code (fx : fmt) (a : Z) (fy : fmt) (b : Z) : Z := dy_floor_div (val_of_code fx a) (val_of_code fy b).
+(* x mod y in units of 2^-max(nfx, nfy) *)
+Definition mod_code (fx : fmt) (a : Z) (fy : fmt) (b : Z) : Z :=
+  let nfr := Z.max (nf fx) (nf fy) in (a * 2^(nfr - nf fx)) mod (b * 2^(nfr - nf fy)).
